@@ -677,7 +677,8 @@ func (w *c20World) buildServers(ctx context.Context, b *builder, o *c20Outcome) 
 
 	mtrc := &c20Metrics{}
 	answered, udpAnswered, plain := 0, 0, 0
-	var pan, where string
+	var pan, where, limPb string
+	limConns := c20HistoryConns(conf)
 	synctest.Test(w.t, func(t *testing.T) {
 		for _, g := range b.serverGroups {
 			for _, srv := range g.Servers {
@@ -724,7 +725,12 @@ func (w *c20World) buildServers(ctx context.Context, b *builder, o *c20Outcome) 
 				plain++
 				where = "ServerDNS exchange"
 				pan = vrt.Catch(func() {
-					answered, udpAnswered = c20Exchange(ctx, l, inner, pconn, baseConf.RequestContext.(*c20CtxCons))
+					hist := 0
+					if lim != nil {
+						hist = limConns
+					}
+					answered, udpAnswered, limPb = c20Exchange(ctx, l, inner, pconn,
+						baseConf.RequestContext.(*c20CtxCons), hist)
 				})
 				if pan != "" {
 					dnsserver.VerifRelease(l)
@@ -752,7 +758,79 @@ func (w *c20World) buildServers(ctx context.Context, b *builder, o *c20Outcome) 
 			"%d of 2 UDP queries were answered (max_udp_response_size=%s)",
 			udpAnswered, conf.DNS.MaxUDPResponseSize)
 	}
-	o.obs("tcp %d udp %d /%d", answered, udpAnswered, plain)
+	if pan == "" && len(mtrc.panics) == 0 && limPb != "" {
+		cl := conf.RateLimit.ConnectionLimit
+		o.Problems = append(o.Problems, c20Pb{
+			Kind:  "unserviceable",
+			Where: "connlimiter history",
+			Key:   "unserviceable/connection_limit-blocks-below-stop",
+			Detail: fmt.Sprintf("connection_limit stop=%d resume=%d, plain-DNS server behind the real limiter: "+
+				"%d connections opened (plus the listener's pending accept, %d < stop counted), one closed, then %s",
+				cl.Stop, cl.Resume, limConns, limConns+1, limPb),
+		})
+	}
+	o.obs("tcp %d udp %d /%d lim %d %q", answered, udpAnswered, plain, limConns, limPb)
+}
+
+// c20MaxHistoryConns bounds the number of simultaneously open connections of
+// the limiter history.
+const c20MaxHistoryConns = 1024
+
+// c20HistoryConns returns the number j of connections that the limiter history
+// keeps open before it closes one: together with the accept that the server's
+// listener always has pending (which the limiter counts as well) j+1 must stay
+// below stop, so that the limiter never legitimately stops, and after one
+// close the count j must still be above resume whenever the thresholds leave
+// room for that (stop-resume >= 3).  Zero means that no history is run.
+func c20HistoryConns(conf *configuration) (j int) {
+	cl := conf.RateLimit.ConnectionLimit
+	if !cl.Enabled || cl.Stop < 3 {
+		return 0
+	}
+	n := min(cl.Stop-2, cl.Resume+1)
+	if n > c20MaxHistoryConns {
+		return 0
+	}
+
+	return int(n)
+}
+
+// c20LimiterHistory opens j connections to the started server, closes the
+// first one and then requires two more connections to be accepted and a query
+// over the last one to be answered: the limiter is below stop all the time.
+// It runs in the bubble and decides "never accepted" by synctest.Wait followed
+// by a non-blocking hand-over, i.e. without letting virtual time pass (idle
+// connections would otherwise be closed by the server's read timeout).
+func c20LimiterHistory(inner *c20Listener, j int) (problem string) {
+	var open []net.Conn
+	defer func() {
+		for _, c := range open {
+			_ = c.Close()
+		}
+	}()
+	for i := 0; i < j; i++ {
+		synctest.Wait()
+		cli, offer := inner.dial()
+		if !offer() {
+			return fmt.Sprintf("connection %d of the first %d was never accepted", i+1, j)
+		}
+		open = append(open, cli)
+	}
+	synctest.Wait()
+	_ = open[0].Close()
+	for i, name := range []string{"next", "second next"} {
+		synctest.Wait()
+		cli, offer := inner.dial()
+		if !offer() {
+			return fmt.Sprintf("the %s connection was never accepted (%d active connections)", name, j-1+i)
+		}
+		open = append(open, cli)
+	}
+	if n := c20TCPQueries(open[len(open)-1], 1); n != 1 {
+		return "the query over the newly accepted connection was not answered"
+	}
+
+	return ""
 }
 
 // c20CtxCons is the real request-context constructor of dnssvc that
@@ -792,7 +870,8 @@ func c20Exchange(
 	inner *c20Listener,
 	pconn *c20PacketConn,
 	cc *c20CtxCons,
-) (answered, udpAnswered int) {
+	histConns int,
+) (answered, udpAnswered int, limPb string) {
 	if err := l.Start(ctx); err != nil {
 		panic(fmt.Errorf("starting: %w", err))
 	}
@@ -835,12 +914,23 @@ func c20Exchange(
 	synctest.Wait()
 	cli, offer := inner.dial()
 	if !offer() {
-		return 0, udpAnswered
+		return 0, udpAnswered, ""
 	}
 	defer cli.Close()
 
+	answered = c20TCPQueries(cli, 2)
+	_ = cli.Close()
+	if answered == 2 && histConns > 0 {
+		limPb = c20LimiterHistory(inner, histConns)
+	}
+
+	return answered, udpAnswered, limPb
+}
+
+// c20TCPQueries writes n pipelined queries to cli and counts the answers.
+func c20TCPQueries(cli net.Conn, n int) (answered int) {
 	var buf []byte
-	for i := 0; i < 2; i++ {
+	for i := 0; i < n; i++ {
 		q := c20Query("example.org", dns.TypeA)
 		q.Id = uint16(100 + i)
 		p, err := q.Pack()
@@ -858,7 +948,7 @@ func c20Exchange(
 	// The handler answers at once; ten minutes of *virtual* time only pass if
 	// every goroutine of the server is blocked for good.
 	_ = cli.SetReadDeadline(time.Now().Add(10 * time.Minute))
-	for i := 0; i < 2; i++ {
+	for i := 0; i < n; i++ {
 		var ln uint16
 		if err := binary.Read(cli, binary.BigEndian, &ln); err != nil {
 			break
@@ -873,10 +963,12 @@ func c20Exchange(
 		}
 		answered++
 	}
-	_ = cli.Close()
+	if answered != n {
+		_ = cli.Close()
+	}
 	<-werr
 
-	return answered, udpAnswered
+	return answered
 }
 
 // ---------------------------------------------------------------------------
